@@ -37,13 +37,14 @@ class PathLimit(Exception):
 
 class Ob:
     __slots__ = ('oid', 'kind', 'lhs', 'rhs', 'goal', 'pre', 'required', 'timeout', 'note',
-                 'nodefs', 'cubes', 'axioms')
+                 'nodefs', 'cubes', 'axioms', 'fallback_cubes')
 
     def __init__(s, oid, kind, lhs, rhs, goal, pre, required=True, timeout=None, note='',
-                 nodefs=False, cubes=None, axioms=()):
+                 nodefs=False, cubes=None, axioms=(), fallback_cubes=None):
         s.oid = oid; s.kind = kind; s.lhs = lhs; s.rhs = rhs; s.goal = goal; s.pre = pre
         s.required = required; s.timeout = timeout; s.note = note; s.nodefs = nodefs
         s.cubes = cubes; s.axioms = tuple(axioms)
+        s.fallback_cubes = fallback_cubes       # a cover of the domain tried only when the single query comes back unknown
 
 
 def _fl(x):
@@ -596,7 +597,11 @@ def discharge(ob, axioms=(), timeout=20, solvers=('z3',), robust=True):
                             'asserts': asserts + list(cube), 'pre_all': pre_all}
         worst = 'unsat' if all(r == 'unsat' for r in res) else 'unknown'
         return {'status': worst, 'model': None, 'time': tt, 'solver': 'z3-cubes', 'nq': nq}
-    r = smt.check(asserts, timeout=to, want_model=True, solvers=solvers)
+    if ob.fallback_cubes:
+        # a cover is available: give the single query a short budget on the first solver only
+        r = smt.check(asserts, timeout=min(to, 8), want_model=True, solvers=solvers[:1])
+    else:
+        r = smt.check(asserts, timeout=to, want_model=True, solvers=solvers)
     nq += 1; tt += r['time']
     res = r['res']
     if res == 'sat':
@@ -617,6 +622,42 @@ def discharge(ob, axioms=(), timeout=20, solvers=('z3',), robust=True):
                 'asserts': asserts, 'pre_all': pre_all}
     if res == 'unsat':
         return {'status': 'unsat', 'model': None, 'time': tt, 'solver': r['solver'], 'nq': nq}
+    if ob.fallback_cubes:
+        # the single query was not decided: split over a cover of the domain (each cube removes the case splits)
+        t_ = time.time()
+        resc = smt.check_many([asserts + list(cube) for cube in ob.fallback_cubes], timeout_each=min(to, 10))
+        nq += len(ob.fallback_cubes); tt += time.time() - t_
+        for cube, rc_ in zip(ob.fallback_cubes, resc):
+            if rc_ == 'sat':
+                r2 = smt.check(asserts + list(cube), timeout=to, want_model=True, solvers=solvers)
+                nq += 1; tt += r2['time']
+                if r2['res'] == 'sat':
+                    return {'status': 'sat', 'model': r2['model'], 'time': tt, 'solver': r2['solver'], 'nq': nq,
+                            'asserts': asserts + list(cube), 'pre_all': pre_all}
+        if all(rc_ == 'unsat' for rc_ in resc):
+            return {'status': 'unsat', 'model': None, 'time': tt, 'solver': 'z3-cubes(fallback)', 'nq': nq}
+    if not ob.fallback_cubes:
+        # generic fallback: case-split on the conditions of the if-then-else nodes of the query (atomic comparisons only; at most
+        # 7 distinct conditions = 128 cubes).  Sound: the cubes cover all truth assignments of those conditions.
+        conds = []
+        for n_ in sr.topo(asserts):
+            if n_.op == 'ite' and n_.args[0].op in ('<', '<=', '=') and all(n_.args[0] is not c_ for c_ in conds):
+                conds.append(n_.args[0])
+        if 1 <= len(conds) <= 7:
+            import itertools as _it
+            cubes = [[(c_ if v_ else sr.bnot(c_)) for c_, v_ in zip(conds, pat)] for pat in _it.product((True, False), repeat=len(conds))]
+            t_ = time.time()
+            resc = smt.check_many([asserts + cube for cube in cubes], timeout_each=min(to, 10))
+            nq += len(cubes); tt += time.time() - t_
+            for cube, rc_ in zip(cubes, resc):
+                if rc_ == 'sat':
+                    r2 = smt.check(asserts + cube, timeout=to, want_model=True, solvers=solvers)
+                    nq += 1; tt += r2['time']
+                    if r2['res'] == 'sat':
+                        return {'status': 'sat', 'model': r2['model'], 'time': tt, 'solver': r2['solver'], 'nq': nq,
+                                'asserts': asserts + cube, 'pre_all': pre_all}
+            if all(rc_ == 'unsat' for rc_ in resc):
+                return {'status': 'unsat', 'model': None, 'time': tt, 'solver': 'z3-cubes(ite-split)', 'nq': nq}
     return {'status': 'unknown', 'model': None, 'time': tt, 'solver': r['solver'], 'nq': nq, 'raw': res}
 
 
